@@ -245,7 +245,9 @@ func (m *UDPMuxDefault) RemoveConnByUfrag(ufrag string) {
 	for _, c := range removedConns {
 		addresses := c.getAddresses()
 		for _, addr := range addresses {
-			delete(m.addressMap, addr)
+			if m.addressMap[addr] == c {
+				delete(m.addressMap, addr)
+			}
 		}
 	}
 	m.addressMapMu.Unlock()
@@ -512,10 +514,19 @@ func (m *UDPMuxDefault) registerConnForAddress(conn *udpMuxedConn, addr netip.Ad
 	m.addressMapMu.Lock()
 	defer m.addressMapMu.Unlock()
 
+	// The connection may have been closed (removed) since the writer checked it;
+	// its bindings have been or will be swept, so it must not gain a new one.
+	if conn.isClosed() {
+		return
+	}
+
 	existing, ok := m.addressMap[addr]
-	if ok {
+	if ok && existing != conn {
 		existing.removeAddress(addr)
 	}
+	// The address list and the address map change together under addressMapMu,
+	// so a connection's list is exactly the set of bindings it owns.
+	conn.appendAddress(addr)
 	m.addressMap[addr] = conn
 
 	m.params.Logger.Debugf("Registered %s for %s", addr.Addr().String(), conn.params.Key)
